@@ -6,7 +6,7 @@ import hvgen
 import hvhist
 
 PROP_MODULES = ["HvsrVerif.Props.C11", "HvsrVerif.Props.C11Laws", "HvsrVerif.Props.C11Order"]
-BRIDGE_MODULES = []
+BRIDGE_MODULES = ["HvsrVerif.Bridge.PyStats"]
 
 
 def nontrivial(h):
